@@ -313,8 +313,9 @@ type Case struct {
 }
 
 type genInput struct {
-	ID    string `json:"id"`
-	Items []Item `json:"items"`
+	ID     string        `json:"id"`
+	Items  []Item        `json:"items,omitempty"`
+	Choice []interface{} `json:"choice,omitempty"` // a member of the sequence families of CssSeq.tla: the specification builds the sheet
 }
 
 // runGen lets TLC compute the cases of the given abstract sheets (sharded over JVMs)
